@@ -4,7 +4,7 @@
    as pinned is refuted at the end. *)
 From Coq Require Import Permutation.
 (* source tie by translation: the lemmas of these files are obligations of this property *)
-From Soy Require Import Proofs.SourceTieMsg Proofs.MsgIdSourceTie.
+From Soy Require Import Proofs.SourceTieMsg Proofs.MsgIdSourceTie Proofs.SourceTieMsgLoops Proofs.SourceTieState.
 From Soy Require Import Model.Bytes Model.Outcome Generated.Tables Model.MsgId Spec.Msg Proofs.MsgIdProofs Proofs.MsgIdInj.
 (* scopes *) Open Scope N_scope.
 
@@ -200,6 +200,26 @@ Theorem C10_tag_loop_matches_source : forall s p,
   alnum_prefix s = Some p <-> exists c r, s = p ++ c :: r /\ forallb src_alnum p = true /\ src_alnum c = false.
 Proof. exact alnum_prefix_matches_source. Qed.
 Print Assumptions C10_tag_loop_matches_source.
+(* hash32, tagName and genBasePlaceholderNameFromHtml as WHOLE functions (Proofs/SourceTieMsgLoops.v) *)
+Theorem C10_hash32_matches_source : forall s seed,
+  st_small (go_len s) -> seed < 4294967296 ->
+  src_soymsg_hash32 s 0 (go_len s) (Z.of_N seed) = Some (Z.of_N (hash32 s seed)).
+Proof. exact hash32_matches_source. Qed.
+Print Assumptions C10_hash32_matches_source.
+Theorem C10_tag_name_matches_source : forall text,
+  match src_soymsg_tagName (map ascii_lower) text with
+  | Some r => tag_name text = Ok r
+  | None => tag_name text = Crash s_no_tag_name
+  end.
+Proof. exact tag_name_matches_source. Qed.
+Print Assumptions C10_tag_name_matches_source.
+Theorem C10_base_from_html_matches_source : forall text,
+  match src_soymsg_genBasePlaceholderNameFromHtml (map ascii_lower) to_upper_underscore text with
+  | Some r => base_from_html text = Ok r
+  | None => base_from_html text = Crash s_no_tag_name
+  end.
+Proof. exact base_from_html_matches_source. Qed.
+Print Assumptions C10_base_from_html_matches_source.
 
 (* ---- the model reproduces the ids of the official compiler that the existing
         tests contain (soymsg/soymsg_test.go, soymsg/pomsg/testdata) ---- *)
